@@ -590,8 +590,33 @@ func (e *Engine) dispatch(s *State, f *Frame, fn *ssa.Function, args []Value, bi
 			s.panicd = "nil *bytes.Buffer at " + site
 			return nil
 		}
-		s.imprec = append(s.imprec, "Buffer.Cap/Available modelled as arbitrary at "+site)
-		set(e.boundedVar(s, "bufcap", 0, 1<<40))
+		// Available = the spare capacity behind the content (one unknown per modification epoch);
+		// Cap = unread bytes + the part of the already consumed bytes still in front of them in the backing
+		// array (unknown, between 0 and the number of consumed bytes: grow slides them away) + spare
+		if strings.HasSuffix(name, ".Available") {
+			set(e.spareCap(s, o))
+		} else {
+			rp := CI(0)
+			if !(o.R.IsConst() && o.R.Val == 0) {
+				rp = e.boundedVar(s, "readpart", 0, 1<<40)
+				s.pc = append(s.pc, Le(rp, o.R, true))
+			}
+			set(Add(Add(unreadLen(o), rp), e.spareCap(s, o)))
+		}
+	case "(*bytes.Buffer).AvailableBuffer":
+		// b.buf[len(b.buf):]: an empty slice whose capacity is the spare capacity; what is written into it is
+		// scratch until it is passed to Write (which copies it to where it already is)
+		o, _ := bufObj(s, args[0])
+		if o == nil {
+			s.panicd = "nil *bytes.Buffer at " + site
+			return nil
+		}
+		sp := e.spareCap(s, o)
+		arr := ArrVar(e.freshName("avail"))
+		sb := &Bytes{Len: sp}
+		sb.At = func(i *Term) *Term { return Select(arr, i) }
+		id := s.newObj(&Obj{Kind: kBytes, B: sb})
+		set(&SliceV{Obj: id, Off: CI(0), Len: CI(0), Cap: sp})
 	case "(*bytes.Buffer).Bytes":
 		o, id := bufObj(s, args[0])
 		if o == nil {
@@ -630,6 +655,8 @@ func (e *Engine) dispatch(s *State, f *Frame, fn *ssa.Function, args []Value, bi
 		s.allocs = append(s.allocs, AllocRec{Size: n, Site: site})
 		if ob, _ := bufObj(s, args[0]); ob != nil {
 			ob.Epoch++
+			// afterwards at least n bytes can be written without another allocation
+			s.pc = append(s.pc, Le(n, e.spareCap(s, ob), true))
 		}
 		return forks
 	case "(*bytes.Buffer).Next":
